@@ -1760,6 +1760,18 @@ impl Runner for ServiceRunner {
                 out.push(format!("!OP sbanfill {}", x));
                 out.push("ok".into());
             }
+            // the application sets the advertised UDP socket itself (`Discv5::update_local_enr_socket`)
+            ["ssetsock", _, addr] => {
+                let Some(a) = parse_addr(addr) else { return noop(out) };
+                let f = self.insts[&x].filter;
+                let changed = self.insts[&x].discv5.update_local_enr_socket(a, false);
+                let after = self.insts[&x].discv5.local_enr();
+                if changed {
+                    stats.bump("s.c17.socket-set-by-the-application");
+                }
+                out.push(format!("!OP ssetsock {} local={}", x, rec_abs(&after, f)));
+                out.push("ok".into());
+            }
             // real time passes
             ["ssleep", _, ms] => {
                 let ms: u64 = ms.parse().unwrap_or(0).min(3000);
@@ -2486,8 +2498,15 @@ fn gen_c12(rng: &mut Rng, ops: &mut Vec<String>, stats: &mut Stats) {
         ops.push("stable A".into());
     }
     let npeers = rng.range(4, 9);
+    // (one case in six: the peers' records carry sequence numbers in the upper half of the u64 range;
+    // "older" records offered later then have small numbers - older by more than 2^63)
+    let high = rng.chance(1, 6);
+    if high {
+        stats.bump("gen.c12.sequence-numbers-above-2^63");
+    }
     for _ in 0..npeers {
-        peers.push(Peer { seed: rng.range(50, 400), seq: rng.range(1, 6), shape: contact_shape(mode, rng).to_string(), pad: 0 });
+        let seq = if high { (1u64 << 63) + rng.range(0, 6) } else { rng.range(1, 6) };
+        peers.push(Peer { seed: rng.range(50, 400), seq, shape: contact_shape(mode, rng).to_string(), pad: 0 });
     }
     let n = if fill { rng.range(10, 30) } else { rng.range(20, 55) };
     for _ in 0..n {
@@ -2515,7 +2534,7 @@ fn gen_c12(rng: &mut Rng, ops: &mut Vec<String>, stats: &mut Stats) {
             let p = &peers[pi];
             let seq = match rng.below(4) {
                 0 => p.seq,
-                1 => p.seq.saturating_sub(1),
+                1 => if high { rng.range(1, 5) } else { p.seq.saturating_sub(1) },
                 _ => p.seq + rng.range(1, 3),
             };
             ops.push(format!("sreq A k{} {} {} ping {}", p.seed, peer_addr(p.seed, mode), rid_tok(rng), seq));
@@ -2558,7 +2577,13 @@ fn gen_c12(rng: &mut Rng, ops: &mut Vec<String>, stats: &mut Stats) {
                     let q = &peers[rng.below(peers.len() as u64) as usize];
                     let sh = if rng.chance(2, 3) { contact_shape(mode, rng).to_string() } else { any_shape(rng).to_string() };
                     // (newer, same or - one in four - older than what was seen of that peer before)
-                    let seq = if rng.chance(1, 4) { q.seq.saturating_sub(rng.range(1, 2)).max(1) } else { q.seq + rng.below(3) };
+                    let seq = if high && rng.chance(1, 3) {
+                        rng.range(1, 5)
+                    } else if rng.chance(1, 4) {
+                        q.seq.saturating_sub(rng.range(1, 2)).max(1)
+                    } else {
+                        q.seq + rng.below(3)
+                    };
                     items.push(format!("k{}:{}:{}:0", q.seed, seq, sh));
                 }
                 if rng.chance(1, 4) {
@@ -3063,8 +3088,12 @@ fn gen_c17(rng: &mut Rng, ops: &mut Vec<String>, stats: &mut Stats) {
             ops.push(format!("sest A k{}:1:{}:0 = {}", s, contact_shape(mode, rng), if rng.chance(4, 5) { "o" } else { "i" }));
         } else if c < 90 {
             ops.push("sfail A #p".into());
-        } else if c < 95 {
+        } else if c < 93 {
             ops.push(format!("sreq A k{} {} {} ping 1", voters[0], peer_addr(voters[0], mode), rid_tok(rng)));
+        } else if c < 96 {
+            // the application overrides the advertised socket; the peers go on voting
+            let a = if mode == "ip6" { "20010db8000000000000000000000009/9999" } else { "192.0.2.99/9999" };
+            ops.push(format!("ssetsock A {}", a));
         } else {
             ops.push("slocal A".into());
         }
